@@ -233,6 +233,71 @@ func genC19(e *emitter, tier string, seed int64) {
 		e.stat("nested-variadic")
 		e.emit(map[string]any{"k": "bind", "params": pj, "defok": runtimev2.CheckFnParamDef(params) == nil, "calls": results})
 	}
+	// the typed getters hand over the argument exactly when it has the asked-for type, and report an error
+	// otherwise (GetParamInt on 1.5, GetParamString on nil, ...)
+	{
+		args := []struct{ src, typ string }{{"7", "int"}, {"1.5", "float"}, {"true", "bool"}, {"\"s\"", "str"}, {"[1, \"a\"]", "list"}, {"{\"a\": 1}", "map"}, {"nil", "nil"}}
+		getters := []string{"int", "float", "bool", "str", "list", "map"}
+		params := mkParams([]pspec{{"a", false, false}})
+		rows := []any{}
+		for _, a := range args {
+			for _, g := range getters {
+				res := "not-called"
+				fn := &runtimev2.Fn{
+					CallCheck: func(ctx *runtimev2.Task, expr *ast.CallExpr) *errchain.PlError {
+						return runtimev2.CheckPassParam(ctx, expr, params)
+					},
+					Call: func(ctx *runtimev2.Task, expr *ast.CallExpr) *errchain.PlError {
+						var v any
+						var err *errchain.PlError
+						switch g {
+						case "int":
+							v, err = runtimev2.GetParamInt(ctx, expr, params, 0)
+						case "float":
+							v, err = runtimev2.GetParamFloat(ctx, expr, params, 0)
+						case "bool":
+							v, err = runtimev2.GetParamBool(ctx, expr, params, 0)
+						case "str":
+							v, err = runtimev2.GetParamString(ctx, expr, params, 0)
+						case "list":
+							v, err = runtimev2.GetParamList(ctx, expr, params, 0)
+						default:
+							v, err = runtimev2.GetParamMap(ctx, expr, params, 0)
+						}
+						plain, _ := runtimev2.GetParam(ctx, expr, params, 0)
+						switch {
+						case err != nil:
+							res = "error"
+						case render(v) == render(plain):
+							res = "value"
+						default:
+							res = "other-value:" + render(v)
+						}
+						return nil
+					},
+					Desc: runtimev2.FnDesc{Name: "f", Params: params},
+				}
+				func() {
+					defer func() {
+						if r := recover(); r != nil {
+							res = "panic:" + fmt.Sprint(r)
+						}
+					}()
+					s, err := engine.ParseV2("t.p", "f("+a.src+")\n", map[string]*runtimev2.Fn{"f": fn})
+					if err != nil {
+						res = "rejected"
+						return
+					}
+					if rerr := s.Run(nil); rerr != nil {
+						res = "runerr"
+					}
+				}()
+				rows = append(rows, []any{a.typ, g, res})
+			}
+		}
+		e.stat("typed-getters")
+		e.emit(map[string]any{"k": "typed", "rows": rows, "gen": "typed-getters", "key": "typed-getters"})
+	}
 	for _, n := range extraNames {
 		for _, k := range kinds {
 			emitList([]pspec{{n, k.Def, k.Var}})
